@@ -267,10 +267,10 @@ QSBR_RULE = ("episodes: the main thread paused, 2-4 initial qsbr_threads (up to 
              "quiescent states, then the main thread resumes and quiesces twice. ")
 
 
-def _qsbr_stages(ctx, prop, cases, execs):
+def _qsbr_stages(ctx, prop, cases, execs, seed_off=0):
     extra = ["--prop", prop, "--execs", str(execs)]
-    ctx.stage("sched-dbg-asan", "qsbr_conc", "dbg-asan", worker_args(ctx.seed, cases, 16, extra), timeout=3600)
-    ctx.stage("sched-rel", "qsbr_conc", "rel", worker_args(ctx.seed + 4242, cases, 16, extra), timeout=3600)
+    ctx.stage("sched-dbg-asan", "qsbr_conc", "dbg-asan", worker_args(ctx.seed + seed_off, cases, 16, extra), timeout=3600)
+    ctx.stage("sched-rel", "qsbr_conc", "rel", worker_args(ctx.seed + seed_off + 4242, cases, 16, extra), timeout=3600)
     ctx.assumptions = ["sequentially consistent interleavings at hook granularity; x86-TSO",
                        "shadow registration uses call/return boundaries on the permissive side: a thread counts as registered from the return of its start/resume to the "
                        "call of its pause/exit; it is discharged by a quiescent state or pause that returns after the retire, or while inside such a call / exiting / paused",
@@ -292,7 +292,7 @@ def c05(ctx):
 @prop("C06")
 def c06(ctx):
     t = ctx.tier == "thorough"
-    _qsbr_stages(ctx, "C06", scaled(40000 if t else 2400), 40)
+    _qsbr_stages(ctx, "C06", scaled(40000 if t else 2400), 40, seed_off=606060)  # other episodes than C05: the two checks share both oracles
     ctx.rule = QSBR_RULE + ("Oracles: one free notification per retired block (0->1 only, none for unretired blocks, none missing at the end); reported thread count == shadow "
                             "count at every action boundary with no start/exit/pause/resume in flight; every request made before the drain is freed by the end of the third "
                             "lockstep round; after all but one thread unregistered, two quiescent states leave the orphan lists, the thread's own lists and the harness's pending "
